@@ -18,6 +18,11 @@ named like the kernel; own random content, ranges ending below and above the shi
 BOTH entry points (`psd_dft` on an isotherm, `psd_dft_kernel_fit` on arrays): the certificate is computed from THAT file, the two entry points have to
 agree bit for bit, pressures outside THAT file's range are refused by both, inside it they are fitted (Props/C18/Memo.lean `resolveKernel_*`:
 an argument that is not a registered name is passed on literally; any weaker key shadows the user's file).
+Kernel files that CANNOT be loaded (text cell in a late / any column, two cells, duplicated pressure row, text in the pressure column, too few rows) through both
+entry points: the first use of a never-seen path is the answer of a fresh interpreter; after the refusal no module-level container of psd_kernel names the file (unless
+with the complete kernel of a file that loads), the second use of the unchanged file and the same content at another path give the same outcome, the intact file passes
+the certificate afterwards, and at the end of the process every registered kernel has the pore widths of its file (Props/C18/Memo.lean `memoRun_unsound_entry_visible`:
+a table entry that is not the function value is what the next call is answered with; `memoRun_eq_map`: from a sound table every history is answered by the function).
 """
 import json
 import math
@@ -697,6 +702,159 @@ def run(ck):
                         fail_case({**sig, "clause": "the same fit gives another answer after other fits in the same process"}, detail)
                     answers[wts_key][1] = got
 
+        # ------------------------------------------------------------------ refused calls leave nothing behind (round 8, C18-m1: STATE LEFT BEHIND BY AN EXCEPTION)
+        # A user kernel file that cannot be loaded (a text cell in some column - mostly a LATE one, so that a loader that publishes its table before it is complete has
+        # built a part of it -, two such cells, a duplicated pressure row, text in the pressure column, too few rows; measured on the unchanged tree: ValueError / TypeError
+        # from inside `_load_kernel`, nothing registered) is refused.  Whatever the library answers at the FIRST use of a path is the answer of a fresh interpreter; then
+        #   (1) no module-level container of psd_kernel keeps an entry for that file, unless it is the COMPLETE kernel of a file that loads (checked against a loader of our own);
+        #   (2) the second use of the same (unchanged) file gives the same outcome - same error class and message; "accepted" after "refused" is the half-filled kernel;
+        #   (3) the same content at another path gives the same outcome (a fresh path: whatever is remembered about failures under a weaker key shows here);
+        #   (4) the intact file the content was derived from passes the certificate of a single fit afterwards, and every registered kernel still has the widths of its file.
+        # The file is never changed under its path (hypothesis "one content per path" of `loaded_cache_transparent`).
+        bk_root = tempfile.mkdtemp(prefix="pgv-broken-")
+        bk_paths = []
+
+        def own_loads(path):
+            """column labels when a loader of our own (same construction as the library) can build the kernel of this file, else None"""
+            try:
+                rk = pd.read_csv(path, index_col=0)
+                rk = pd.concat([pd.DataFrame([[0 for _ in rk.columns]], index=[0], columns=rk.columns), rk])
+                for c in rk:
+                    _ip.interp1d(rk[c].index, rk[c].values, kind="cubic")
+                return [str(c) for c in rk.columns]
+            except Exception:  # noqa
+                return None
+
+        def module_entries(path):
+            """entries of module-level containers of psd_kernel whose key names this file (by full path or by file name)"""
+            base = os.path.basename(path)
+            found = []
+            for name, obj in list(vars(pk).items()):
+                if name.startswith("__"):
+                    continue
+                if isinstance(obj, dict):
+                    found += [(name, kk, vv) for kk, vv in list(obj.items()) if base in str(kk)]
+                elif isinstance(obj, (list, set, frozenset, tuple)):
+                    found += [(name, kk, None) for kk in list(obj) if isinstance(kk, (str, tuple)) and base in str(kk)]
+            return found
+
+        def break_lines(good_lines):
+            ncol = len(good_lines[0].split(",")) - 1
+            nrow = len(good_lines) - 1
+            kind = rng.choice(["text cell in a late column", "text cell in a late column", "text cell in any column", "two text cells", "duplicated pressure row", "text in the pressure column", "too few rows"])
+            ls = list(good_lines)
+            tok = rng.choice(["ERR", "--", "1.2.3", "#VALUE!", "?", "12abc"])
+            where = {"token": tok}
+
+            def put(r, c):
+                cells = ls[r].split(",")
+                cells[c] = tok
+                ls[r] = ",".join(cells)
+                where.setdefault("cells (row, column; 1-based, column 0 = pressure)", []).append([r, c])
+            if kind == "text cell in a late column":
+                put(rng.randint(1, nrow), rng.randint(max(2, ncol - ncol // 3), ncol))
+            elif kind == "text cell in any column":
+                put(rng.randint(1, nrow), rng.randint(1, ncol))
+            elif kind == "two text cells":
+                c1 = rng.randint(2, ncol)
+                put(rng.randint(1, nrow), c1)
+                put(rng.randint(1, nrow), rng.randint(1, c1))
+            elif kind == "duplicated pressure row":
+                r = rng.randint(1, nrow)
+                ls.insert(r, ls[r])
+                where["row"] = r
+            elif kind == "text in the pressure column":
+                put(rng.randint(1, nrow), 0)
+            else:
+                ls = ls[:rng.randint(2, 3)]
+                where["rows_kept"] = len(ls) - 1
+            return kind, where, ls, ncol
+
+        def outcome(ep, karg, P, L, order):
+            try:
+                if ep == "psd_dft":
+                    r = pgc.psd_dft(iso_of(P.copy(), L.copy()), kernel=karg, branch="ads", bspline_order=order)
+                    nw_ = len(r["pore_widths"])
+                else:
+                    nw_ = len(pk.psd_dft_kernel_fit(P.copy(), L.copy(), karg, bspline_order=order)[0])
+                return ["accepted", f"result on {nw_} pore widths"]
+            except Exception as e:  # noqa
+                return ["refused", type(e).__name__, str(e)[:200]]
+
+        def refused_file_case(i):
+            k = rng.choice(["user", "user2", "user3", "twin", rng.choice(NAMESAKES), "shipped"])
+            good_path, widths0, plo, phi = KERNEL_FILES[k]
+            nw = len(widths0)
+            with open(good_path, encoding="utf8") as fp:
+                good_lines = fp.read().splitlines()
+            kind, where, ls, ncol = break_lines(good_lines)
+            d1, d2 = os.path.join(bk_root, f"a{i}"), os.path.join(bk_root, f"b{i}")
+            os.makedirs(d1)
+            os.makedirs(d2)
+            fname = f"broken-{i}-{rng.randrange(10**6)}.csv"
+            p1 = os.path.join(d1, fname)
+            p2 = os.path.join(d2, fname if rng.random() < 0.5 else "copy-of-" + fname)
+            for p in (p1, p2):
+                with open(p, "w", encoding="utf8") as fp:
+                    fp.write("\n".join(ls) + "\n")
+                bk_paths.append(p)
+            P = np.array(sorted({logu(rng, max(plo, 1e-7) * 1.01, phi * 0.98) for _ in range(25 if k == "shipped" else 10)}))
+            wts = sparse_weights(nw)
+            wts[nw - 1 - rng.randrange(max(1, nw // 3))] = rng.uniform(0.05, 1.0)         # a width of a late column takes part
+            L = combo(good_path, P, wts)
+            order = rng.choice([0, 0, 2])
+            ep = rng.choice(["psd_dft_kernel_fit", "psd_dft"])
+            sig = {"kernel": "user", "entry_point": ep, "history": "kernel file that cannot be loaded, used again", "broken_file": kind}
+            detail = {"content_derived_from": kname(k) + " kernel " + os.path.basename(good_path), "columns_of_the_file": ncol, "broken": where, "bspline_order": order,
+                      "file_head": ls[:2], "pressure": P.tolist(), "loading": [float(v) for v in L]}
+            ck.count(("refused-file", kind, ep, i), bucket=f"state after a refused call:{kind}:{ep}")
+            o1 = outcome(ep, p1, P, L, order)
+            detail["first_use"] = o1
+            if o1[0] != "refused":
+                ck.count(("refused-file-accepted", kind), nontrivial=False, bucket="state after a refused call: the file was accepted at first use (nothing to compare)")
+                return
+            loads = own_loads(p1)
+            for name, kk, vv in module_entries(p1):
+                if loads is None:
+                    fail_case({**sig, "clause": "a kernel file that was refused stays registered in the module"},
+                              {**detail, "container": name, "key": str(kk), "entries_of_the_registered_kernel": len(vv) if hasattr(vv, "__len__") else None})
+                elif isinstance(vv, dict) and [str(c) for c in vv] != loads:
+                    fail_case({**sig, "clause": "registered kernel does not have the pore widths of its file"}, {**detail, "container": name, "registered": len(vv), "file": len(loads)})
+            o2 = outcome(ep if rng.random() < 0.7 else ("psd_dft" if ep != "psd_dft" else "psd_dft_kernel_fit"), p1, P, L, order)
+            if o2 != o1:
+                fail_case({**sig, "clause": "a kernel file that was refused is answered differently at the second use", "how": "accepted" if o2[0] == "accepted" else "another error"},
+                          {**detail, "second_use": o2})
+            o3 = outcome(ep, p2, P, L, order)
+            if [s.replace(p2, "<path>") for s in o3] != [s.replace(p1, "<path>") for s in o1]:
+                fail_case({**sig, "clause": "the same kernel file content at another path is answered differently after a refused call", "how": "accepted" if o3[0] == "accepted" else "another error"},
+                          {**detail, "other_path_use": o3, "same_file_name": os.path.basename(p1) == os.path.basename(p2)})
+            for p in (p1, p2):
+                for name, kk, vv in module_entries(p):
+                    if own_loads(p) is None:
+                        fail_case({**sig, "clause": "a kernel file that was refused stays registered in the module"}, {**detail, "container": name, "key": str(kk), "after": "second use / other path"})
+            # the intact file afterwards
+            sig_g = {"kernel": kname(k), "bspline_order": order, "history": "intact kernel file after refused calls on a broken copy"}
+            ck.count(("refused-file-then-good", k, order), bucket="state after a refused call: the intact file afterwards")
+            certificate(good_path, P, L, order, wts, sig_g, {**detail, "kernel_file": os.path.basename(good_path), "weights": {str(widths0[j]): float(wts[j]) for j in range(nw) if wts[j] > 0}}, widths0)
+
+        for i in range(ck.n(12, 48)):
+            refused_file_case(i)
+
+        # every registered kernel is the complete kernel of its file (whatever happened in this process: fits, refusals, other kernels)
+        for k, (path, widths0, _, _) in KERNEL_FILES.items():
+            for arg in [path] + [a for a in used_kernel_args if os.path.basename(a) == os.path.basename(path) and os.path.exists(a) and os.path.samefile(a, path)]:
+                for name, obj in list(vars(pk).items()):
+                    ent = obj.get(arg) if isinstance(obj, dict) and not name.startswith("__") else None
+                    if isinstance(ent, dict):
+                        ck.count(("registered-complete", k, name), nontrivial=False, bucket="registered kernels are complete at the end of the process")
+                        try:
+                            got = [float(c) for c in ent]
+                        except Exception:  # noqa
+                            got = None
+                        if got is None or len(got) != len(widths0) or not np.allclose(got, widths0):
+                            fail_case({"kernel": kname(k), "clause": "registered kernel does not have the pore widths of its file"},
+                                      {"kernel_file": os.path.basename(path), "container": name, "registered": None if got is None else got[:8], "file": [float(v) for v in widths0[:8]]})
+
         # ------------------------------------------------------------------ entry point: limits, outside-range refusal
         for i in range(max(6, N // 2)):
             npts = rng.choice([30, 50])
@@ -793,6 +951,10 @@ def run(ck):
         for arg in list(used_kernel_args) + [KERNEL_FILES[k][0] for k in NAMESAKES]:
             pk._LOADED.pop(arg, None)
         shutil.rmtree(ns_root, ignore_errors=True)
+        for arg in locals().get('bk_paths', []):
+            pk._LOADED.pop(arg, None)
+        if 'bk_root' in locals():
+            shutil.rmtree(bk_root, ignore_errors=True)
         for f in os.listdir(tmpdir4):
             os.remove(os.path.join(tmpdir4, f))
         os.rmdir(tmpdir4)
@@ -847,7 +1009,8 @@ def run(ck):
                       "and weights balanced against the size of the kernel columns: every width contributes 0.5-3000 mmol/g), arbitrary increasing data, pressure limits anywhere (both, one, none; adsorption and desorption branch) with perturbed data outside them, "
                       "pressures outside the kernel range; histories of fits in one process on related grids (same length and end points, one point moved, subsets, shifted, reversed, arrays changed in place, other isotherm / order / kernel on "
                       "the same grid, other limits or isotherm through the entry point), user kernel files named like the shipped kernel (file name, bare name, other extension / case / prefix / suffix / directory; ranges below and above the shipped one; "
-                      "absolute / relative / unnormalised path) through psd_dft and psd_dft_kernel_fit with agreement of the two, refusal outside and acceptance inside the file's own range, every answer certified with an independently loaded and interpolated kernel, repeated calls compared")
+                      "absolute / relative / unnormalised path) through psd_dft and psd_dft_kernel_fit with agreement of the two, refusal outside and acceptance inside the file's own range, every answer certified with an independently loaded and interpolated kernel, repeated calls compared; kernel files that cannot be loaded (text cells, duplicated pressure row, text pressure, too few rows): "
+                      "nothing stays registered after the refusal, second use and the same content at another path are refused alike, the intact file is fitted afterwards, registered kernels are complete at the end")
     ck.assumptions += ["scipy SLSQP (ftol 1e-4, absolute) is numerical: fit error of exact combinations checked to max(0.15, 2e-2 |loading|_2) in L2 at every magnitude of the weights "
                        "(the absolute floor is the property's 'optimiser tolerance': isotherms with a sum of squares near ftol may be answered by the start vector 0)",
                        "scipy interp1d(kind='cubic') of the kernel file is residue; scipy splev is compared with the de Boor model on every smoothed fit"]
